@@ -116,9 +116,37 @@ def closure_lines(flags, depth, rng=None, cap=None):
     return lines
 
 
+def fmt_sym(sy):
+    return ("%s%s%d%d" % sy) if sy[2] <= 9 else ("%s%s#%d/%d" % sy)
+
+
 def fmt_line(flags, seq):
-    return "%d %d %d : %s\n" % (flags["A"], flags["B"], flags["C"],
-                                " ".join("%s%s%d%d" % sy for sy in seq))
+    return "%d %d %d : %s\n" % (flags["A"], flags["B"], flags["C"], " ".join(fmt_sym(sy) for sy in seq))
+
+
+LONG_N = [15, 16, 17, 63, 64, 65, 127, 128, 129, 255, 256, 257, 511, 512, 513, 1000, 1023, 1024, 1025, 1026, 2047, 2048,
+          2049, 3000, 4095, 4096, 4097, 5000]
+
+
+def long_life(flags, rng):
+    """A parallel task whose bodies 1..N each run and end (a few stay paused or
+    running on the other stack), then one more operation on an old body: the
+    rules do not depend on how many bodies a task has had."""
+    n = rng.choice(LONG_N) if rng.random() < 0.8 else rng.randint(10, 6000)
+    seq = []
+    keep = set(rng.sample(range(1, n + 1), rng.choice([0, 0, 1, 3])))
+    for b in range(1, n + 1):
+        if b in keep and not any(sy[3] == 1 and sy[0] == "x" for sy in seq[-1:]) and len([k for k in keep if k < b]) == 0:
+            seq.append(("x", "C", b, 1))        # stays running at the bottom of stack 1
+            continue
+        seq.append(("x", "C", b, 0))
+        seq.append(("e", "C", b, 0))
+    last = (rng.choice("xxxpre"), "C", rng.choice([1, 2, n // 2, n - 1, n, rng.randint(1, n), n + 1]), rng.choice([0, 0, 1]))
+    m = replay(flags, seq)
+    if m is None:
+        return None
+    ok = m.op(*last)
+    return seq + [last], ok, m
 
 
 def part_a(chk, asan, quick):
@@ -155,6 +183,10 @@ def part_a(chk, asan, quick):
                     break
             mm = replay(flags, seq[:-1]) if seq else TM(flags)
             lines.append((seq, ok, m))
+        for _ in range(6 if quick else 60):
+            ll = long_life(flags, r2)
+            if ll:
+                lines.append(ll)
         text = "".join(fmt_line(flags, seq) for (seq, ok, m) in lines if seq)
         lines = [l for l in lines if l[0]]
         r = core.run_retry([exe], stdin=text.encode(), timeout=300)
@@ -183,9 +215,9 @@ def part_a(chk, asan, quick):
                 legal = exp[min(k, len(exp) - 1)] == 0
                 chk.report("task-module:%s:%s" % ("rejects-legal" if legal else "accepts-illegal", sy[0]),
                            "flags %s: after %s the module returned %s for %s, the body machine says %s"
-                           % (flags, " ".join("%s%s%d@%d" % s for s in seq[:-1]), codes[-1] if codes else None,
+                           % (flags, " ".join("%s%s%d@%d" % s for s in seq[-12:-1]), codes[-1] if codes else None,
                               "%s%s%d@%d" % seq[-1], "legal" if ok else "illegal"),
-                           {"flags": flags, "seq": ["%s%s%d%d" % s for s in seq]})
+                           {"flags": flags, "seq": [fmt_sym(s) for s in seq]})
                 continue
             if ok:
                 # what runs on each stack
@@ -194,7 +226,7 @@ def part_a(chk, asan, quick):
                     want = "%d:%d" % ((TID[top[0]], top[1]) if top else (0, 0))
                     if tails[s] != want:
                         chk.report("task-module:running-body", "stack %d runs %s, machine says %s" % (s, tails[s], want),
-                                   {"flags": flags, "seq": ["%s%s%d%d" % sy for sy in seq]})
+                                   {"flags": flags, "seq": [fmt_sym(sy) for sy in seq]})
     return nseq, len(distinct)
 
 
